@@ -334,6 +334,14 @@ def run_oracles(pid, recs, res, cst):
         if pid == 'C09' and r.get('build_ms', 0) > 3000 and len(c['data']) < 200000:
             stats['stalls'] += 1
             res.violations.append(replay_payload(pid, c, 'building the graph for a %d-byte file took %d ms' % (len(c['data']), r['build_ms']), 'stall'))
+        if r.get('impl_outcome') == 'stall':
+            stats['stalls'] += 1
+            if pid == 'C09':
+                res.violations.append(replay_payload(pid, c, 'building the graph for a %d-byte file did not finish within 40 s' % len(c['data']), 'stall'))
+            else:
+                if not any('stalled' in t for t in res.tie_broken):
+                    res.tie_broken.append('the builder stalled (> 40 s) on a %d-byte input of the campaign: case %s' % (len(c['data']), c['id']))
+            continue
         if r['impl_outcome'] == 'panic':
             stats['impl_panics'] += 1
             if pid == 'C09':
